@@ -181,6 +181,11 @@ class World:
             ctx.probe("config:" + item)
         import time as _t
         CURRENT.update(sched=sched, t0=_t.time(), hits=0, steps=-1, lines=-1)
+        # exceptions that Python cannot raise anywhere (a generator's clean-up code failing when the generator is dropped, a
+        # failing __del__) are reported through sys.unraisablehook: workload objects provoke them on purpose; keep stderr clean
+        import sys as _sys
+        unraisable_was = _sys.unraisablehook
+        _sys.unraisablehook = lambda *a: None
         try:
             try:
                 self.scenario(ctx)
@@ -229,6 +234,7 @@ class World:
                                                "wall seconds without reaching a yield point (spinning in %s)" % (t.name, BUSY_AFTER_S, t.died[2])})
             leaked = sched.kill_all()
             seams.uninstall()
+            _sys.unraisablehook = unraisable_was
             if gc_was:
                 gc.enable()
         if leaked and harness is None:
